@@ -17,7 +17,7 @@ func init() {
 		ID: "C06", Fn: c06,
 		Rule:        "clause 1: one evaluation = one depth-d search with every unsound heuristic off (quiescence, razoring, RFP, null move, FP, QFP, LMP, LMR, extensions, TT value cuts, eval TT) under one on/off combination of the sound switches (PVS, killer, history counter, counter moves, IID with IIDDepth=2/IIDReduction=1, MDP, TT for ordering) whose BestValue and BestMove are compared with a pruning-free negamax written in the harness (engine Position/movegen/Evaluate, the engine's draw rule after each move, terminal scores -mate+ply / 0, leaves evaluated on a FEN-fresh position); clause 2: quiescence on, root value identical across the sampled / all 128 combinations; distinct = distinct (root identity, depth, mask)",
 		Assumptions: []string{"the reference shares Position, move generation and Evaluate with the engine (judged by C01-C04, C15) but no search code", "roots that are already drawn by history are excluded (C05 covers them)"},
-		Required:    []string{"searches", "reference_nodes", "roots", "roots_single_move", "depth3_or_more", "mate_scores_seen", "draw_by_repetition_in_tree", "qs_groups", "masks_with_iid", "masks_without_pvs", "promotions_in_tree"},
+		Required:    []string{"searches", "reference_nodes", "roots", "roots_single_move", "depth3_or_more", "mate_scores_seen", "draw_by_repetition_in_tree", "qs_groups", "masks_with_iid", "masks_without_pvs", "promotions_in_tree", "deep_mate_ending_roots", "mates_of_different_length_in_tree"},
 		MinEvals:    500,
 		TimeoutQ:    20 * 60e9,
 		TimeoutT:    180 * 60e9,
@@ -57,7 +57,23 @@ func applySound(m soundMask, quiescence bool) string {
 	return fmt.Sprintf("sound-mask=%07b(PVS=%v,Killer=%v,Hist=%v,Counter=%v,IID=%v,MDP=%v,TTorder=%v) qs=%v", int(m), c.UsePVS, c.UseKiller, c.UseHistoryCounter, c.UseCounterMoves, c.UseIID, c.UseMDP, c.UseTT, quiescence)
 }
 
+// sparse endings with a forced mate in 2-3 and slower mates beside it; searched to
+// depth 5-6 so that mates of different length lie inside the horizon
+var c06MateEndings = []string{
+	"3k4/8/4K3/8/8/8/8/R7 w - - 0 1",
+	"3k4/8/4K3/8/8/8/8/Q7 w - - 0 1",
+	"7k/8/8/8/8/8/R7/1R5K w - - 0 1",
+	"k7/8/2K5/8/8/8/8/7R w - - 0 1",
+	"7k/8/5K2/8/8/8/8/1Q6 w - - 0 1",
+	"6k1/8/5K2/8/8/8/8/2R5 w - - 0 1",
+	"k7/2K5/8/8/8/8/8/5B1N w - - 0 1",
+	"7k/5K2/8/6N1/8/8/8/4B3 w - - 0 1",
+	"5k2/8/4K3/8/8/8/8/RQ6 w - - 0 1",
+	"8/8/8/8/8/1K6/5Q2/k7 w - - 0 1",
+}
+
 type refSearch struct {
+	matePlies map[int]bool
 	mgs      []*movegen.Movegen
 	ev       *evaluator.Evaluator
 	nodes    int64
@@ -83,6 +99,9 @@ func (rs *refSearch) negamax(p *position.Position, d int, ply int) int {
 	if len(moves) == 0 {
 		if p.HasCheck() {
 			rs.sawMate = true
+			if rs.matePlies != nil {
+				rs.matePlies[ply] = true
+			}
 			return -int(types.ValueCheckMate) + ply
 		}
 		return 0
@@ -131,13 +150,31 @@ func c06(c *Ctx) {
 		r := SubRng(c.Seed, "c06/root", i)
 		var start *rc.Board
 		low := i%3 == 0
-		if low {
+		deepMate := i%24 == 5 // sparse mating endings searched deep enough to hold mates of different length
+		if deepMate {
+			start = rc.MustFEN(c06MateEndings[r.Intn(len(c06MateEndings))])
+			if r.Chance(0.5) {
+				start = start.Mirror()
+			}
+			if r.Chance(0.4) {
+				// one random legal move first: the mated side is at the root / the mate gets longer
+				if ms := start.Legal(); len(ms) > 0 {
+					start = start.Apply(ms[r.Intn(len(ms))])
+					start.Half, start.Full = 0, 1
+				}
+			}
+			rep.Inc("deep_mate_ending_roots")
+		} else if low {
 			start = rc.MustFEN(lowBranch[r.Intn(len(lowBranch))])
 		} else {
 			start = rc.MustFEN(roots[r.Intn(len(roots))])
 		}
 		var steps []Step
-		switch i % 5 {
+		sw := i % 5
+		if deepMate {
+			sw = 0
+		}
+		switch sw {
 		case 1:
 			steps = playout(r, start, r.Intn(12), defaultBias)
 		case 2:
@@ -163,6 +200,12 @@ func c06(c *Ctx) {
 		if nLegal > 35 && depth > 2 {
 			depth = 2
 		}
+		if deepMate {
+			depth = 6
+			if len(b.Legal()) > 26 {
+				depth = 5
+			}
+		}
 		refDepth := depth
 		if nLegal == 1 {
 			refDepth = 1
@@ -174,6 +217,7 @@ func c06(c *Ctx) {
 		// reference
 		p := root.pos()
 		rs.sawMate, rs.sawRep, rs.sawPromo, rs.over24 = false, false, false, false
+		rs.matePlies = map[int]bool{}
 		n0 := rs.nodes
 		rep.Begin(fmt.Sprintf("root %s depth %d (history %d plies)", b.FEN(), depth, len(steps)))
 		// per-root-move values
@@ -204,11 +248,30 @@ func c06(c *Ctx) {
 		if rs.sawRep {
 			rep.Inc("draw_by_repetition_in_tree")
 		}
+		if len(rs.matePlies) >= 2 {
+			rep.Inc("mates_of_different_length_in_tree")
+		}
 		if rs.sawPromo {
 			rep.Inc("promotions_in_tree")
 		}
+		// D1 witness class: the phase sum exceeded 24 in the reference tree or
+		// already in the history that led to the root (the root position object is
+		// reached by play and carries the drift with it)
+		histOver24 := false
+		{
+			hp := engPos(root.start.FEN())
+			if phaseSum(hp) > 24 {
+				histOver24 = true
+			}
+			for _, st := range root.steps {
+				hp.DoMove(toEng(st.Move))
+				if phaseSum(hp) > 24 {
+					histOver24 = true
+				}
+			}
+		}
 		tag := ""
-		if rs.over24 {
+		if rs.over24 || histOver24 {
 			tag = ":phase-sum-exceeded-24"
 		}
 		payload := root.desc()
@@ -219,6 +282,9 @@ func c06(c *Ctx) {
 			m := soundMask(r.Intn(128))
 			if masksPer >= 128 {
 				m = soundMask(k)
+			} else if deepMate && k < 4 {
+				// mate endings: always include the plain and the MDP-only configurations
+				m = []soundMask{smMDP, 0, smMDP | smPVS, 127}[k]
 			}
 			desc := applySound(m, false)
 			if m&smIID != 0 {
